@@ -29,7 +29,7 @@ def load_values_and_dt(ffp):
         data = np.genfromtxt(ffp, skip_header=2, delimiter=",", usecols=0)
         with open(ffp) as ifile:
             dt = float(ifile.read().splitlines()[1].split()[1])
-    values = data.astype(float)
+    values = np.atleast_1d(data.astype(float))  # a single-sample record is read as a 0-d array
     return values, dt
 
 
